@@ -16,6 +16,7 @@ structure RAux where
   crashed : Bool := false
   lastTouch : Nat := 0        -- last instant at which this instance's counted set or configuration moved
   lastGive : Option Nat := none
+  inListener : Bool := false  -- the loop is held up inside a (slow) listener: the published figure lags the partition list
   preStarted : Bool := false  -- v2: the loop's first provisioning was logged before Start()'s own (later) log line
 deriving Inhabited
 
@@ -194,6 +195,8 @@ def replayLease (sc : LScn) (entries : List String) : RRes := Id.run do
         match lstep n s (.stop i) with
         | some s' => s := s'
         | none => return bad "shutdown event, the model's loop is not running / has a call in flight"
+    else if kind == "lsleep" then aux := aux.modify n2 fun u => { u with inListener := true }
+    else if kind == "lwake" then aux := aux.modify n2 fun u => { u with inListener := false, lastTouch := t }
     else if kind == "sample" then
       let caps := (f.getD 2 "").splitOn ","
       for (cs, i) in caps.zipIdx do
@@ -205,7 +208,7 @@ def replayLease (sc : LScn) (entries : List String) : RRes := Id.run do
             let cap := (capS.toNat?).getD 0
             let mx := (maxS.toNat?).getD 0
             if mx != x.maxCapacity then return bad s!"MaxCapacity() of instance {i}: model {x.maxCapacity}"
-            if !u.provisioning && x.call.isNone && u.lastTouch != t && cap != x.capacity then
+            if !u.provisioning && !u.inListener && x.call.isNone && u.lastTouch != t && cap != x.capacity then
               return bad s!"Capacity() of instance {i}: model {x.capacity} (held={x.held})"
         | _ => pure ()
     else pure ()
